@@ -50,10 +50,12 @@ def run(ctx):
            pre=['0 <= shape <= 10', 'len(cb) <= 3', '-1 <= a <= 10'],
            cells=[('shape%d' % s, ['shape == %d' % s]) for s in range(11)], timeout=tmo,
            desc='JSONP: cb + "(" + json + ");" with javascript mimetype; plain JSON without callback'),
-        Ob('exotic', 'ob_exotic', 'kind: int, nest: int, dev: bool',
-           pre=['0 <= kind <= 9', '0 <= nest <= 3'], timeout=tmo, twin_fn='tw_exotic',
-           cells=[('kind%d' % k, ['kind == %d' % k]) for k in range(10)],
-           desc='dev mode degrades unknown objects to repr; non-dev raises TypeError only for non-serialisable objects'),
+        Ob('json_with_html', 'ob_json_with_html', '', packed=[('doc_i', 7), ('as_bytes', 2, 'bool')], timeout=tmo, confirm='confirm_json_with_html',
+           desc='serialized JSON documents whose strings mention <html (inside and beyond the sniffing window) are labelled application/json'),
+        Ob('exotic', 'ob_exotic', 'kind: int, nest: int, dev: bool, rk: int',
+           pre=['0 <= kind <= 9', '0 <= nest <= 3', '0 <= rk <= 3'], timeout=tmo, twin_fn='tw_exotic',
+           cells=[('kind%d_rk%d' % (k, r), ['kind == %d' % k, 'rk == %d' % r]) for k in range(10) for r in range(4)],
+           desc='JSONRender / streaming JSONRender / JSONPRender with and without callback: dev mode degrades unknown objects to repr; non-dev raises TypeError only for non-serialisable objects'),
     ]
     res = run_obligations('C17', 'harness.c17', obs, ctx.tier)
     res.functions_encoded += ['clastic.render.simple.BasicRender.render_response/_serialize_to_resp/_guess_json',
